@@ -219,12 +219,15 @@ def check(ck):
     from_body = t is not None and prov.contains(t, lambda x: x[0] == "call" and x[1][0] == "attr" and x[1][2] == "join")
     ck.require(from_body, "C01.8", "%s: dispatch receives the decoded body" % q.fn(fpost), "data derived from the joined reads",
                "the dispatcher is given %s, not the received body" % (prov.show(t)[:80] if t else None), q.loc(fpost, n))
-    wr = [(m, cc) for m in gpo.live_nodes() for cc in node_calls(m) if dump(cc.func) == "self.wfile.write"]
-    okk = len(wr) == 1
-    if okk:
-        tw = prov.origin(gpo, wr[0][0], wr[0][1].args[0])
-        inner = [x for x in prov.subterms(tw) if x[0] == "call" and x[1][0] == "attr" and x[1][2] in ("_marshaled_dispatch", "response")]
-        okk = tw[0] == "call" and prov.show(tw[1]).endswith("to_bytes") and bool(inner)
+    # the body written once the dispatcher has been called (an earlier exit that rejects the HTTP request itself - no length, no
+    # body read - writes its own text and is not a reply to a call)
+    after = reachable_avoiding(gpo, n.id, set())
+    wr = [(m, cc) for m in gpo.live_nodes() for cc in node_calls(m) if dump(cc.func) == "self.wfile.write" and m.id in after]
+    okk = len(wr) >= 1
+    for (wm, wc_) in wr:
+        tw = prov.origin(gpo, wm, wc_.args[0]) if wc_.args else None
+        inner = [x for x in prov.subterms(tw) if x[0] == "call" and x[1][0] == "attr" and x[1][2] in ("_marshaled_dispatch", "response")] if tw else []
+        okk = okk and tw is not None and tw[0] == "call" and prov.show(tw[1]).endswith("to_bytes") and bool(inner)
     ck.require(okk, "C01.8", "%s: the reply written is the dispatcher's result" % q.fn(fpost), "to_bytes(<_marshaled_dispatch result | fault.response()>)",
                "the bytes written to the client are not the dispatcher's reply", q.loc(fpost, fpost.node))
 
@@ -237,6 +240,9 @@ def check(ck):
     ck.require(okk, "C01.8", "%s: dispatch receives the request text" % q.fn(fcgi), "self._marshaled_dispatch(request_text)",
                "the CGI handler does not hand the request text to the dispatcher", q.loc(fcgi, fcgi.node))
     wcg = [(m, cc) for m in gcg.live_nodes() for cc in node_calls(m) if call_name(cc) == "write" and cc.args]
+    if not any(isinstance(cc.func, ast.Name) and cc.func.id == "print" for m in gcg.live_nodes() for cc in node_calls(m)):
+        # the rules below know the header block as print() lines closed by an empty print(); another way of emitting it is refused
+        raise AnalysisError("the CGI handler does not emit its header block with print(): shape not modelled (C01.8 / C17.1)")
     okk = len(wcg) == 1
     if okk:
         tw = prov.origin(gcg, wcg[0][0], wcg[0][1].args[0])
@@ -566,7 +572,10 @@ def check(ck):
     pdm = postdominators(gm, [gm.return_exit.id], NORMAL)
     if runs:
         rn_ = runs[0][0]
-        okk = any(d.id in pdm[rn_.id] for d in dels)
+        # cleared on every normal path that sends the batch - after the exchange, or before it once the body has been built from
+        # the jobs (clearing before the body is built would send nothing)
+        domm = dominators(gm)
+        okk = any(d.id in pdm[rn_.id] for d in dels) or any(d.id in domm[rn_.id] and joined.id in domm[d.id] for d in dels)
         ck.require(okk, "C01.6", "%s: job list cleared after the exchange" % q.fn(fmc), "`del self._job_list[:]` post-dominates the exchange",
                    "after a batch was sent there is a normal path on which the job list is not cleared: re-using the MultiCall "
                    "re-sends (and re-executes) the previous calls", q.loc(fmc, rn_))
